@@ -381,7 +381,7 @@ Proof. intros. unfold split_on. apply split_on_aux_app. Qed.
 Lemma split_on_aux_nosep : forall sep s cur, ~ In sep s -> split_on_aux sep s cur = [rev cur ++ s].
 Proof.
   intros sep. induction s as [|c s IH]; intros cur H.
-  - cbn. rewrite app_nil_r. reflexivity.
+  - cbn. rewrite app_nil_r. unfold rev'. rewrite <- rev_alt. reflexivity.
   - cbn [split_on_aux]. destruct (c =? sep) eqn:E.
     + apply N.eqb_eq in E. subst. exfalso. apply H. left. reflexivity.
     + rewrite IH by (intros X; apply H; right; exact X). cbn [rev]. rewrite <- app_assoc. reflexivity.
